@@ -277,6 +277,237 @@ Proof.
 Qed.
 End TwoSections.
 
+(* ------------------------------------------------------------------ pay-to-script-hash sessions: scriptSig, scriptPubKey, redeem script *)
+Section ThreeSections.
+Variable low_s : bytes -> bool.
+Variable tap_tweak_ok : bytes -> bytes -> bytes -> bool -> bool.
+Variable sha256 : bytes -> bytes.
+Variable c : cfg.
+Notation dbg_step := (Session.dbg_step low_s tap_tweak_ok sha256).
+Notation opl := (map (fun op => (true, op_line op))).
+
+(* index |X| of a listing built from X ++ line :: Y is that line *)
+Lemma marked_at : forall X (b : bool) t Y,
+  marked_line (number_from 0 (X ++ (b, t) :: Y)) (Z.of_nat (length X)) = Some (if b then numbered (Z.of_nat (length X)) t else t).
+Proof.
+  intros X b t Y.
+  assert (Hn: nth_error (X ++ (b, t) :: Y) (length X) = Some (b, t)) by (rewrite nth_error_app2 by lia; rewrite Nat.sub_diag; reflexivity).
+  rewrite marked_is_nth by (rewrite number_from_length, app_length; cbn [length]; lia).
+  rewrite Nat2Z.id. rewrite (number_from_nth _ 0 _ _ _ Hn). rewrite Z.add_0_l. reflexivity.
+Qed.
+
+(* the listing main() builds for such a spend: the operations of the scriptSig, a header, those of the scriptPubKey, a header, those of the
+   redeem script (taken from the scriptSig's last push) *)
+Definition three_listing (script succ redeem : bytes) : list str :=
+  number_from 0 (opl (decode_ops script) ++ [(false, HDR_SPK)] ++ opl (decode_ops succ) ++ [(false, HDR_P2SH)] ++ opl (decode_ops redeem)).
+
+Definition nA (script : bytes) : Z := Z.of_nat (length (decode_ops script)).
+(* phase A: in the scriptSig; phase B: in the scriptPubKey with the redeem script on top of the saved stack; phase C: in the redeem script *)
+Definition inv3 (script succ redeem : bytes) (v : ienv) : Prop :=
+  i_tce v = None /\
+  ((i_succ v = succ /\ i_p2sh v = false /\ e_script (i_e v) = script /\
+    exists pre, decode_ops script = pre ++ decode_ops (i_pc v) /\ i_seq v = Z.of_nat (length pre))
+   \/
+   (i_succ v = [] /\ i_p2sh v = true /\ e_script (i_e v) = succ /\ (exists rest, i_p2shstack v = redeem :: rest) /\
+    exists pre, decode_ops succ = pre ++ decode_ops (i_pc v) /\ i_seq v = nA script + 1 + Z.of_nat (length pre))
+   \/
+   (i_succ v = [] /\ i_p2sh v = false /\ e_script (i_e v) = redeem /\
+    exists pre, decode_ops redeem = pre ++ decode_ops (i_pc v) /\ i_seq v = nA script + 1 + nA succ + 1 + Z.of_nat (length pre))).
+
+(* what the marker shows in every state of the invariant: the next operation; at the end of a section the header of the section entered
+   next; after the last operation of the redeem script nothing *)
+Theorem three_sections_marker : forall script succ redeem v, succ <> [] -> inv3 script succ redeem v ->
+  match i_pc v with
+  | _ :: _ => forall op pc', get_op (i_pc v) = (Some op, pc') ->
+               marked_line (three_listing script succ redeem) (i_seq v) = Some (numbered (i_seq v) (op_line op))
+  | [] => if (match i_succ v with [] => false | _ => true end) then marked_line (three_listing script succ redeem) (i_seq v) = Some HDR_SPK
+          else if i_p2sh v then marked_line (three_listing script succ redeem) (i_seq v) = Some HDR_P2SH
+          else marked_line (three_listing script succ redeem) (i_seq v) = None
+  end.
+Proof.
+  intros script succ redeem v Hne (Ht & [(Hs & Hp & He & pre & Hd & Hq)|[(Hs & Hp & He & Hst & pre & Hd & Hq)|(Hs & Hp & He & pre & Hd & Hq)]]);
+    unfold three_listing, nA in *.
+  - destruct (i_pc v) as [|b r] eqn:Epc.
+    + rewrite Hs. destruct succ; [contradiction|]. rewrite decode_ops_nil, app_nil_r in Hd. rewrite Hq, <- Hd.
+      rewrite <- (map_length (fun op => (true, op_line op)) (decode_ops script)). cbn [app]. apply marked_at.
+    + intros op pc' Hg. rewrite (decode_ops_cons _ _ _ Hg) in Hd. rewrite Hq, Hd. rewrite map_app. cbn [map]. rewrite <- app_assoc. cbn [app].
+      rewrite <- (map_length (fun op => (true, op_line op)) pre). apply (marked_at (opl pre) true).
+  - destruct (i_pc v) as [|b r] eqn:Epc.
+    + rewrite Hs, Hp. rewrite decode_ops_nil, app_nil_r in Hd. rewrite Hq, <- Hd.
+      set (X := opl (decode_ops script) ++ [(false, HDR_SPK)] ++ opl (decode_ops succ)).
+      replace (Z.of_nat (length (decode_ops script)) + 1 + Z.of_nat (length (decode_ops succ))) with (Z.of_nat (length X))
+        by (unfold X; rewrite !app_length, !map_length; cbn [length]; lia).
+      replace (opl (decode_ops script) ++ [(false, HDR_SPK)] ++ opl (decode_ops succ) ++ [(false, HDR_P2SH)] ++ opl (decode_ops redeem))
+        with (X ++ (false, HDR_P2SH) :: opl (decode_ops redeem)) by (unfold X; rewrite <- !app_assoc; reflexivity).
+      apply marked_at.
+    + intros op pc' Hg. rewrite (decode_ops_cons _ _ _ Hg) in Hd. rewrite Hq, Hd.
+      set (X := opl (decode_ops script) ++ [(false, HDR_SPK)] ++ opl pre).
+      replace (Z.of_nat (length (decode_ops script)) + 1 + Z.of_nat (length pre)) with (Z.of_nat (length X))
+        by (unfold X; rewrite !app_length, !map_length; cbn [length]; lia).
+      replace (opl (decode_ops script) ++ [(false, HDR_SPK)] ++ opl (pre ++ op :: decode_ops pc') ++ [(false, HDR_P2SH)] ++ opl (decode_ops redeem))
+        with (X ++ (true, op_line op) :: (opl (decode_ops pc') ++ [(false, HDR_P2SH)] ++ opl (decode_ops redeem)))
+        by (unfold X; rewrite map_app; cbn [map]; rewrite <- !app_assoc; reflexivity).
+      apply (marked_at X true).
+  - destruct (i_pc v) as [|b r] eqn:Epc.
+    + rewrite Hs, Hp. rewrite decode_ops_nil, app_nil_r in Hd. apply marked_none_past_end.
+      rewrite Hq. rewrite number_from_length, !app_length, !map_length, <- Hd. cbn [length]. lia.
+    + intros op pc' Hg. rewrite (decode_ops_cons _ _ _ Hg) in Hd. rewrite Hq, Hd.
+      set (X := opl (decode_ops script) ++ [(false, HDR_SPK)] ++ opl (decode_ops succ) ++ [(false, HDR_P2SH)] ++ opl pre).
+      replace (Z.of_nat (length (decode_ops script)) + 1 + Z.of_nat (length (decode_ops succ)) + 1 + Z.of_nat (length pre)) with (Z.of_nat (length X))
+        by (unfold X; rewrite !app_length, !map_length; cbn [length]; lia).
+      replace (opl (decode_ops script) ++ [(false, HDR_SPK)] ++ opl (decode_ops succ) ++ [(false, HDR_P2SH)] ++ opl (pre ++ op :: decode_ops pc'))
+        with (X ++ (true, op_line op) :: opl (decode_ops pc'))
+        by (unfold X; rewrite map_app; cbn [map]; rewrite <- !app_assoc; reflexivity).
+      apply (marked_at X true).
+Qed.
+
+Lemma inv3_init : forall script succ redeem stack ed, i_p2sh (setup_env c script stack succ ed None) = false ->
+  inv3 script succ redeem (setup_env c script stack succ ed None).
+Proof. intros script succ redeem stack ed Hp. split; [reflexivity|]. left. split; [reflexivity|]. split; [exact Hp|]. split; [reflexivity|]. exists []. split; reflexivity. Qed.
+
+(* every successful step keeps the invariant, through both switches - provided the script that is listed as redeem script is the one the
+   scriptSig leaves on top of the stack (for the push-only scriptSig of a standard pay-to-script-hash spend: its last push) *)
+Theorem inv3_step : forall script succ redeem v v', succ <> [] -> p2sh_shape (c_flags c) succ = true ->
+  (i_succ v = succ -> i_pc v = [] -> exists rest, e_stack (i_e v) = redeem :: rest) ->
+  inv3 script succ redeem v -> dbg_step c v = (v', SOk) -> inv3 script succ redeem v'.
+Proof.
+  intros script succ redeem v v' Hne Hshape Htop (Ht & Hph) H. unfold Session.dbg_step in H. rewrite Ht in H.
+  destruct (i_pc v) as [|b r] eqn:Epc.
+  - destruct Hph as [(Hs & Hp & He & pre & Hd & Hq)|[(Hs & Hp & He & Hst & pre & Hd & Hq)|(Hs & Hp & He & pre & Hd & Hq)]].
+    + (* A -> B: switch to the scriptPubKey; the stack is saved *)
+      rewrite Hp, Hs in H. destruct succ as [|s0 sr]; [contradiction|]. cbn [orb] in H. rewrite Bool.andb_true_r in H.
+      destruct (negb (cs_empty (e_cond (i_e v)))); [discriminate|].
+      destruct (MAX_SCRIPT_SIZE <? zlen (s0 :: sr)); [discriminate|]. rewrite Hshape in H. inversion H; subst v'. clear H.
+      split; [reflexivity|]. right. left. cbn [i_succ i_e e_script i_pc i_seq i_p2sh i_p2shstack].
+      split; [reflexivity|]. split; [reflexivity|]. split; [reflexivity|]. split; [apply Htop; [exact Hs|reflexivity]|].
+      exists []. split; [reflexivity|]. rewrite decode_ops_nil, app_nil_r in Hd. unfold nA. rewrite Hq, Hd. cbn [length]. lia.
+    + (* B -> C: switch to the redeem script *)
+      rewrite Hp, Hs in H. cbn [orb] in H. rewrite Bool.andb_true_r in H.
+      destruct (negb (cs_empty (e_cond (i_e v)))); [discriminate|].
+      destruct (e_stack (i_e v)) as [|top rest0]; [discriminate|].
+      destruct (negb (cast_to_bool top)); [discriminate|].
+      destruct (is_p2sh_script (e_script (i_e v))); [|discriminate].
+      destruct Hst as (rest & Hst). rewrite Hst in H. inversion H; subst v'. clear H.
+      split; [reflexivity|]. right. right. cbn [i_succ i_e e_script i_pc i_seq i_p2sh].
+      split; [first [exact Hs|reflexivity]|]. split; [reflexivity|]. split; [reflexivity|].
+      exists []. split; [reflexivity|]. rewrite decode_ops_nil, app_nil_r in Hd. unfold nA in *. rewrite Hq, Hd. cbn [length]. lia.
+    + (* end of the redeem script *)
+      rewrite Hp, Hs in H. cbn [orb] in H. rewrite Bool.andb_false_r in H.
+      destruct (negb (cs_empty (e_cond (i_e v)))); [discriminate|]. inversion H; subst v'. clear H.
+      split; [exact Ht|]. right. right. cbn. split; [exact Hs|]. split; [exact Hp|]. split; [exact He|]. exists pre. split; assumption.
+  - destruct (step_script low_s c (i_e v) (b :: r) false) as [[e1 pc1] st] eqn:Es.
+    destruct st; try discriminate. inversion H; subst v'. clear H.
+    destruct (step_script_pc low_s c _ _ _ _ _ Es) as [op Hg].
+    pose proof (step_script_framed low_s c (i_e v) (b :: r) false) as Hf. cbv zeta in Hf. rewrite Es in Hf. cbn [fst snd] in Hf.
+    destruct Hf as [Hfr _]. unfold frs in Hfr. cbn [fst] in Hfr.
+    split; [exact Ht|].
+    cbn [i_e i_pc i_seq i_succ i_p2sh i_p2shstack set_seq set_hist upd set_pos e_script].
+    destruct Hph as [(Hs & Hp & He & pre & Hd & Hq)|[(Hs & Hp & He & Hst & pre & Hd & Hq)|(Hs & Hp & He & pre & Hd & Hq)]].
+    + left. split; [exact Hs|]. split; [exact Hp|]. split; [rewrite Hfr; exact He|]. exists (pre ++ [op]).
+      split; [rewrite Hd, (decode_ops_cons _ _ _ Hg), <- app_assoc; reflexivity|rewrite app_length; cbn [length]; lia].
+    + right. left. split; [exact Hs|]. split; [exact Hp|]. split; [rewrite Hfr; exact He|]. split; [exact Hst|]. exists (pre ++ [op]).
+      split; [rewrite Hd, (decode_ops_cons _ _ _ Hg), <- app_assoc; reflexivity|rewrite app_length; cbn [length]; lia].
+    + right. right. split; [exact Hs|]. split; [exact Hp|]. split; [rewrite Hfr; exact He|]. exists (pre ++ [op]).
+      split; [rewrite Hd, (decode_ops_cons _ _ _ Hg), <- app_assoc; reflexivity|rewrite app_length; cbn [length]; lia].
+Qed.
+
+(* main() builds exactly this listing for such a session, with the scriptSig's last push as redeem script *)
+Lemma session_listing_three : forall script succ stack ed, succ <> [] -> (c_sigver c =? SV_TAPSCRIPT) = false ->
+  (has_flag (c_flags c) SCRIPT_VERIFY_P2SH && is_p2sh_script succ) = true ->
+  session_listing c (setup_env c script stack succ ed None) = three_listing script succ (last_push script).
+Proof.
+  intros script succ stack ed Hne Hsv Hnp. unfold session_listing, listing, listing_sections, three_listing.
+  cbn [i_tce i_succ i_e e_script setup_env i_p2sh i_p2shstack]. destruct succ as [|s0 sr]; [contradiction|]. rewrite Hnp, Hsv.
+  cbn [map app concat]. rewrite ?app_nil_r. reflexivity.
+Qed.
+End ThreeSections.
+
+(* ------------------------------------------------------------------ ... and the premise of inv3_step holds for a scriptSig made of data pushes *)
+From BV Require Import StepProofs.
+Section P2shReach.
+Variable low_s : bytes -> bool.
+Variable tap_tweak_ok : bytes -> bytes -> bytes -> bool -> bool.
+Variable sha256 : bytes -> bytes.
+Variable c : cfg.
+Notation dbg_step := (Session.dbg_step low_s tap_tweak_ok sha256).
+
+(* the scriptSig of a standard pay-to-script-hash spend: only data pushes (OP_0 .. OP_PUSHDATA4), at least one *)
+Definition data_pushes (script : bytes) : Prop :=
+  decode_ops script <> [] /\ Forall (fun op => 0 <= fst op <= OP_PUSHDATA4) (decode_ops script).
+
+Lemma last_push_snoc : forall ops op, fold_left (fun (acc : bytes) (o : Z * bytes) => snd o) (ops ++ [op]) [] = snd op.
+Proof. intros ops op. rewrite fold_left_app. reflexivity. Qed.
+
+(* while the scriptSig runs: every operation so far was an executed push, the stack is those pushes (latest on top) over the initial stack *)
+Definition invP (script : bytes) (stack0 : list bytes) (v : ienv) : Prop :=
+  cs_all_true (e_cond (i_e v)) = true /\
+  exists pre, decode_ops script = pre ++ decode_ops (i_pc v) /\ e_stack (i_e v) = rev (map snd pre) ++ stack0.
+
+Lemma invP_step : forall script stack0 v v', data_pushes script -> i_tce v = None -> i_pc v <> [] ->
+  invP script stack0 v -> dbg_step c v = (v', SOk) -> invP script stack0 v'.
+Proof.
+  intros script stack0 v v' [_ Hall] Ht Hpc (Hex & pre & Hd & Hst) H. unfold Session.dbg_step in H. rewrite Ht in H.
+  destruct (i_pc v) as [|b r] eqn:Epc; [contradiction|].
+  destruct (step_script low_s c (i_e v) (b :: r) false) as [[e1 pc1] st] eqn:Es.
+  destruct st; try discriminate. inversion H; subst v'. clear H.
+  destruct (step_script_pc low_s c _ _ _ _ _ Es) as [[opcode push] Hg].
+  assert (Hin: In (opcode, push) (decode_ops script)) by (rewrite Hd, (decode_ops_cons _ _ _ Hg); apply in_or_app; right; left; reflexivity).
+  pose proof (proj1 (Forall_forall _ _) Hall _ Hin) as Hr. cbn [fst] in Hr.
+  destruct (executed_push low_s c _ _ _ _ _ _ _ _ Hg Hex Hr Es) as (_ & Hs1 & _ & Hc1 & _).
+  split; [cbn [i_e set_seq set_hist upd set_pos e_cond]; rewrite Hc1; exact Hex|].
+  exists (pre ++ [(opcode, push)]). cbn [i_e i_pc set_seq set_hist upd set_pos e_stack].
+  split; [rewrite Hd, (decode_ops_cons _ _ _ Hg), <- app_assoc; reflexivity|].
+  rewrite Hs1, Hst, map_app, rev_app_distr. reflexivity.
+Qed.
+
+(* when such a scriptSig has run to its end, its last push is on top of the stack *)
+Lemma invP_end : forall script stack0 v, data_pushes script -> invP script stack0 v -> i_pc v = [] ->
+  exists rest, e_stack (i_e v) = last_push script :: rest.
+Proof.
+  intros script stack0 v [Hne _] (_ & pre & Hd & Hst) Hpc. rewrite Hpc, decode_ops_nil, app_nil_r in Hd.
+  unfold last_push. rewrite Hd in *. destruct (exists_last Hne) as (l & x & El). rewrite El in *.
+  rewrite last_push_snoc. rewrite Hst, map_app, rev_app_distr. cbn [map rev app]. eexists. reflexivity.
+Qed.
+
+(* once the scriptPubKey has been entered no step brings a pending successor script back *)
+Lemma dbg_step_succ_nil : forall v v' st, i_tce v = None -> i_succ v = [] -> dbg_step c v = (v', st) -> i_succ v' = [].
+Proof.
+  intros v v' st Ht Hsu H. unfold Session.dbg_step in H. rewrite Ht in H. destruct (i_pc v) as [|b r].
+  - rewrite Hsu in H.
+    repeat match type of H with
+           | context [if ?q then _ else _] => destruct q
+           | context [match ?q with [] => _ | _ :: _ => _ end] => destruct q
+           end; inversion H; subst v'; cbn; first [exact Hsu|reflexivity].
+  - destruct (step_script low_s c (i_e v) (b :: r) false) as [[e1 pc1] st1]. destruct st1; inversion H; subst v'; cbn; exact Hsu.
+Qed.
+
+(* EVERY state reached by successful steps of a pay-to-script-hash spend with such a scriptSig satisfies the three-section invariant
+   (so the marker theorem applies in all of them) *)
+Theorem p2sh_session_reachable : forall script succ stack ed v, succ <> [] -> p2sh_shape (c_flags c) succ = true -> data_pushes script ->
+  i_p2sh (setup_env c script stack succ ed None) = false ->
+  reach low_s tap_tweak_ok sha256 c (setup_env c script stack succ ed None) v ->
+  inv3 script succ (last_push script) v /\ (i_succ v = succ -> invP script stack v).
+Proof.
+  intros script succ stack ed v Hne Hshape Hdp Hp H. induction H as [|v v' Hr IH Hs].
+  - split; [apply inv3_init; exact Hp|]. intros _. split; [reflexivity|]. exists []. split; reflexivity.
+  - destruct IH as [Hinv HP]. split.
+    + eapply (inv3_step low_s tap_tweak_ok sha256 c script succ (last_push script) v v' Hne Hshape); [|exact Hinv|exact Hs].
+      intros Hsu Hpc. eapply invP_end; [exact Hdp|apply HP; exact Hsu|exact Hpc].
+    + intros Hsu'.
+      (* still in the scriptSig after the step: the step was an operation of the scriptSig *)
+      destruct Hinv as (Ht & [(Hsu & Hp2 & He & _)|[(Hsu & _)|(Hsu & _)]]).
+      * destruct (i_pc v) as [|b r] eqn:Epc.
+        { (* the switch clears the successor: contradiction with Hsu' *)
+          exfalso. unfold Session.dbg_step in Hs. rewrite Ht, Epc, Hp2, Hsu in Hs. destruct succ as [|s0 sr]; [contradiction|].
+          cbn [orb] in Hs. rewrite Bool.andb_true_r in Hs.
+          destruct (negb (cs_empty (e_cond (i_e v)))); [discriminate|].
+          destruct (MAX_SCRIPT_SIZE <? zlen (s0 :: sr)); [discriminate|]. inversion Hs; subst v'. cbn in Hsu'. discriminate. }
+        { eapply invP_step; [exact Hdp|exact Ht|rewrite Epc; discriminate|apply HP; exact Hsu|exact Hs]. }
+      * exfalso. rewrite (dbg_step_succ_nil v v' SOk Ht Hsu Hs) in Hsu'. destruct succ; [contradiction|discriminate].
+      * exfalso. rewrite (dbg_step_succ_nil v v' SOk Ht Hsu Hs) in Hsu'. destruct succ; [contradiction|discriminate].
+Qed.
+End P2shReach.
+
 (* ------------------------------------------------------------------ tapscript sessions: commitment lines, then the committed script *)
 Section TapSections.
 Variable low_s : bytes -> bool.
